@@ -77,6 +77,18 @@ func checkC08(c *Ctx) {
 		}
 		add("many-roots-bad", []byte(strings.Repeat("{}\n", k)+"{]\n"+strings.Repeat("{}\n", 5)))
 	}
+	// one bad line (a raw control character / LF inside a string) at the start or in the
+	// middle of many good ones: several index buffers follow it
+	{
+		_, nds := earlyErrorDocs()
+		for _, d := range nds {
+			add("bad-line-early", d)
+		}
+		for _, k := range []int{T_INDEX, 2 * T_INDEX} {
+			add("bad-line-first", []byte("{]\n"+strings.Repeat("{}\n", k)))
+			add("bad-line-first", []byte("{} {}\n"+strings.Repeat("{}\n", k)))
+		}
+	}
 	// newline inside a string is not a delimiter (and is a control character)
 	for _, s := range []string{"{\"a\":\"x\ny\"}", "[\"\\n\"]\n[\"b\"]", "[1]\n\n\n[2]", "[1]\r\n[2]\r\n", "[1]\r[2]", "[1]\n [2]", "[1] \n[2]", "[1]\n]", "[1]\n,", "\n", "\n\n", " \n ", "[1]", "[1]\n"} {
 		add("special", []byte(s))
